@@ -571,10 +571,17 @@ def _embed_indep(A4, layout):
     return L.transpose(2, 0, 3, 1).reshape(4 * m, 4 * n)
 
 
-def _real_embed(kind, A4):
+def _real_embed(kind, A4, layout="C"):
     from .. import runtime as rt
     r = rt.real()
     u = r.utils
+    if layout != "C":
+        if kind == "real_expand":
+            return u.real_expand(rt.q_from4(A4, layout))
+        if kind == "adjoint":
+            return u.quaternion_to_complex_adjoint(rt.q_from4(A4, layout))
+        if kind == "Realp":
+            return u.Realp(*[np.asfortranarray(A4[..., c]) if layout == "F" else A4[..., c] for c in range(4)])
     if kind == "real_expand":
         return u.real_expand(rt.q_from4(A4))
     if kind == "Realp":
@@ -593,6 +600,10 @@ def _check_embed(kind, A4, B4=None):
         want = _embed_indep(A4, "interleaved" if kind == "real_expand" else "blocked")
         if got.shape != want.shape or not np.array_equal(got, want):
             return {"got": got, "want": want, "what": "embedding differs from the left-regular representation"}
+        for lay in ("F", "S"):
+            g2 = _real_embed(kind, A4, lay)
+            if g2.shape != want.shape or not np.array_equal(g2, want):
+                return {"got": g2, "want": want, "what": f"embedding of the same matrix given as a {lay}-layout view differs"}
         if B4 is not None:
             eb = _real_embed(kind, B4)
             eab = _real_embed(kind, rt.qmm(A4, B4))
@@ -608,6 +619,10 @@ def _check_embed(kind, A4, B4=None):
         want = rt.complex_adjoint(A4)
         if got.shape != want.shape or not np.array_equal(got, want):
             return {"got": got, "want": want, "what": "adjoint differs from [[C, D], [-conj D, conj C]]"}
+        for lay in ("F", "S"):
+            g2 = _real_embed(kind, A4, lay)
+            if g2.shape != want.shape or not np.array_equal(g2, want):
+                return {"got": g2, "want": want, "what": f"adjoint of the same matrix given as a {lay}-layout view differs"}
         if B4 is not None and not np.allclose(got @ _real_embed(kind, B4), _real_embed(kind, rt.qmm(A4, B4)), atol=1e-9):
             return {"what": "product not mapped to product"}
         if not np.allclose(_real_embed(kind, rt.qH(A4)), got.conj().T):
@@ -616,10 +631,11 @@ def _check_embed(kind, A4, B4=None):
             return {"what": "norm not scaled by sqrt 2"}
         return None
     if kind == "roundtrip":
-        Q = rt.q_from4(A4)
-        back = u.real_contract(u.real_expand(Q), A4.shape[0], A4.shape[1])
-        if back.shape != Q.shape or rt.q_to4(back).tobytes() != A4.astype(float).tobytes():
-            return {"got": rt.q_to4(back), "want": A4, "what": "real_contract(real_expand(Q)) is not bit-identical to Q"}
+        for lay in ("C", "F", "S"):
+            Q = rt.q_from4(A4, lay)
+            back = u.real_contract(u.real_expand(Q), A4.shape[0], A4.shape[1])
+            if back.shape != Q.shape or rt.q_to4(back).tobytes() != A4.astype(float).tobytes():
+                return {"got": rt.q_to4(back), "want": A4, "what": f"real_contract(real_expand(Q)) is not bit-identical to Q (layout {lay})"}
         return None
     if kind == "A2A0123":
         comps = [A4[..., c].copy() for c in range(4)]
